@@ -333,6 +333,8 @@ Definition co_step_clauses (accts : list Z) (S : cspec) (now : Z) (op : co_op) (
          ++ flag (near (cdelta o a) (putin_of S c a)) "withdrawn_not_what_was_put_in"
          ++ flag (forallb (fun b => (b =? a) || ceq (cdelta o b) czero) accts) "paid_someone_else"
          ++ flag (ceq out czero) "donations_touched_by_withdraw"
+         (* the bonds are returned once: the contributor's record is gone afterwards *)
+         ++ flag (negb (has_contrib (co_colls o) c a)) "withdrawn_but_record_kept"
      | CRemove c =>
          flag (forallb (fun a => negb (has_contrib (cp_colls S) c a && negb (has_contrib (co_colls o) c a))
                                  || near (cdelta o a) (putin_of S c a)) accts) "removal_not_what_was_put_in"
